@@ -492,6 +492,16 @@ def _do(world, st, op):
 
         return res
 
+    if name == 'new_section':
+        # a content section object constructed directly (public classes)
+        cls = getattr(L.dom_objects, str(op.get('cls')), None)
+
+        if cls is None:
+            return {'outcome': 'skip', 'skipped': 'no-class'}
+
+        cls(**argattrs(world, st, op.get('attrs', {})))
+        return {}
+
     if name == 'parse':
         src = op.get('from')
 
